@@ -28,6 +28,7 @@ META = {
     "level_note": "Trusts str.strip semantics and the CFG. The claim covers the built-in and Shopify tags found in the registries.",
 }
 META["technique"] += '; composite blank flags (every rendered child consulted) and single reader of the suppression switch'
+META["technique"] += '; unless/if constructor comparator (blank flag)'
 META["level_text"] += " Also decided (R2 extensions): a composite node's blank flag consults every child block it renders, and only BlockNode reads the suppression switch or branches on a blank flag, so suppression never skips side effects."
 
 WS_CHARS = set(" \t\r\n\f\v")
@@ -312,6 +313,11 @@ def run(prog: Program, res: Result) -> None:  # noqa: PLR0912, PLR0915
                 else:
                     res.fail("C18.R8", file=lexer_cls.file, line=line, qualname=f"Lexer.{label}", construct=f"Lexer.{label}: marker group {gname} accepts {sorted(chars)}{'' if optional else ' (not optional)'}", message=f"the whitespace-control position {gname} of Lexer.{label} accepts {sorted(chars)}{'' if optional else ' and is not optional'} where WC_MAP knows {sorted(markers)}: markup written with a missing marker is not recognised as markup at all and comes out as literal text", what=what)
     res.floor("C18.R8", "marker groups in the lexer's patterns", n_wc, 10)
+
+    res.rule("C18.R10", "the blank flag of `unless` is computed like that of `if` (consequence, every alternative and the default): UnlessNode.__init__ equals IfNode.__init__ after renaming")
+    from checks.shared import check_unless_mirrors_if
+
+    check_unless_mirrors_if(prog, res, "C18.R10", only=("__init__",))
 
     # ------------------------------------------------------------------ R5 text is carried character for character
     res.rule("C18.R5", "with no trimming in force literal text is reproduced character for character: neither the output buffers nor the loaders' file reads translate line endings (shared with C06.R2 / C20.R5)")
